@@ -54,6 +54,8 @@ def tier_cases(prop, tier, seed):
 
 
 def run_compare(prop, hbin, dbin, cases):
+    ids = [c.cid for c in cases]
+    assert len(ids) == len(set(ids)), "case ids are not unique: %r" % [i for i in set(ids) if ids.count(i) > 1][:5]
     impl = vf.run_sharded(hbin, cases)
     model = vf.run_sharded(dbin, cases)
     diffs = []
